@@ -40,6 +40,7 @@ META = {
 }
 
 NEVER = 999999999
+EPOCH = 1700000000.0     # the virtual clock runs at a realistic absolute time
 MOD = 'm'
 
 # ------------------------------------------------------------------ virtual clock
@@ -259,7 +260,7 @@ class CtlLock:
 
 
 class RConn:
-    """fake connection: records (sender thread, inside-updateLock?) with every message"""
+    """fake connection: records (sender thread, inside the module's updateLock?) with every message"""
 
     def __init__(self, name, world):
         self.name = name
@@ -270,7 +271,8 @@ class RConn:
     def send_reply(self, msg):
         w = self.world
         me = threading.get_ident()
-        self.msgs.append((msg, me, w.lock.held() if w.lock and not w.activating else None))
+        lock = w.locks.get(str(msg[1]).partition(':')[0]) if len(msg) > 1 else None
+        self.msgs.append((msg, me, lock.held() if lock and not w.activating else None))
         p = w.pause_send.get(me)
         if p == self.name:
             w.pause_send[me] = None
@@ -280,13 +282,43 @@ class RConn:
         return f'RConn({self.name})'
 
 
+class CbConn:
+    """the receiving end of internal parameter callbacks (Module.addCallback), kept like a connection: every
+    callback invocation is turned into the update message a connection would have got"""
+
+    def __init__(self, world):
+        self.name = 'cb'
+        self.world = world
+        self.msgs = []
+
+    def callback(self, p, value, err=None):
+        w = self.world
+        pobj = w.mobj[p].parameters[p]
+        t = {'t': pobj.timestamp} if pobj.timestamp else {}
+        spec = f'{w.mname[p]}:{pobj.export}'
+        if err is not None:
+            msg = ('error_update', spec, [err.name, str(err), t])
+        else:
+            msg = ('update', spec, [pobj.datatype.export_value(value), t])
+        self.msgs.append((msg, threading.get_ident(), w.locks[w.mname[p]].held()))
+
+
+class _Log(LoggerStub):
+    propagate = False      # (setRemoteLogging walks up the logger chain on ident / disconnect)
+
+
+def _raising_callback(*args):
+    raise RuntimeError('a callback of another module fails')
+
+
 # ------------------------------------------------------------------ the world (real frappy objects)
 
 _classes = {}
 
 
 def _module_class(key, specs):
-    """real Module subclass with one parameter per spec (name, dtname, has_default, update_unchanged)"""
+    """real Module subclass with one parameter per spec (name, datatype name, start, update_unchanged, kind, export)
+    kind: rw (read_* and write_*), noread (write_* only), const (constant, no driver methods)"""
     if key in _classes:
         return _classes[key]
     from frappy.modules import Module, Parameter
@@ -314,29 +346,38 @@ def _module_class(key, specs):
         what, x = w.script[(me, kind, p)]
         if what == 'raise':
             raise x
+        if what == 'nested':        # this driver reads another parameter first (its failure propagates)
+            inner, ret = x
+            getattr(self, 'read_' + inner)()
+            return ret
         return x
 
     attrs = {'drv': drv, 'world': None}
-    for p, dtname, start, uu in specs:
+    for p, dtname, start, uu, kind, export in specs:
         fac, vals, _, _ = cat[dtname]
-        kw = {}
-        if start:       # (value id, stamped?): value= is announced (stamped) at construction, default= is not
+        kw = {'export': export}
+        if kind == 'const':
+            kw['constant'] = vals[start[0]][0]
+        elif start:       # (value id, stamped?): value= is announced (stamped) at construction, default= is not
             kw['value' if start[1] else 'default'] = vals[start[0]][0]
         if uu is not None:
             kw['update_unchanged'] = uu
         attrs[p] = Parameter(p, fac(), readonly=False, **kw)
-        attrs['read_' + p] = mk_read(p)
-        attrs['write_' + p] = mk_write(p)
+        if kind == 'rw':
+            attrs['read_' + p] = mk_read(p)
+        if kind != 'const':
+            attrs['write_' + p] = mk_write(p)
     cls = type('M_' + str(len(_classes)), (Module,), attrs)
     _classes[key] = cls
     return cls
 
 
 class World:
-    """one module `m` on a real dispatcher, fake connections, instrumented locks"""
+    """one or two modules (`m`, `n`) on a real dispatcher, fake connections, instrumented locks"""
 
     def __init__(self, init, shape):
-        """init: first record of a behaviour/trace (omit, sub, nodefault, c); shape: {dts:{p:dt}, how:{p:..}}"""
+        """init: first record of a behaviour/trace (omit, sub, nodefault, hidden, mod2, c);
+        shape: {dts, how, kind, exp, unit, epoch, cbs} - how the abstract world is realised"""
         boot()
         patch_clock()
         from frappy.lib import generalConfig
@@ -344,60 +385,80 @@ class World:
         self.cat = _catalogue()
         self.errs = _errors()
         self.params = sorted(init['omit'])
+        self.hidden = set(init.get('hidden', ()))
         self.dts = shape['dts']
+        self.kind = {p: shape.get('kind', {}).get(p, 'rw') for p in self.params}
+        self.unit = shape.get('unit', 1.0)
+        self.epoch = shape.get('epoch', EPOCH)
         self.ctl = Ctl()
-        self.lock = None
+        self.locks = {}
         self.script = {}
         self.drv_calls = []
         self.pause_drv = {}
         self.pause_send = {}
         self.cur = {}          # thread -> op being executed
+        self.cs_now = {}       # thread -> clock reading when it entered the critical section
+        self.cs_count = 0
         self.events = []       # critical sections in linearisation order
         self.last_err = {}
         self.activating = False
+        self.drifted = False
+        self.nested_outer = set()   # parameters whose cached error came through a nested read
         self.tname = {}
-        Clock.now = float(init.get('now', 1))
-        # how the suppression window is configured: on the parameter, the module property, or generalConfig
+        Clock.now = self.t2c(init.get('now', 1))
+        self.mname = {p: 'n' if p in init.get('mod2', ()) else MOD for p in self.params}
+        self.srv = ServerStub()
+        self.mods = {}
         how = dict(shape.get('how', {}))
         omit = init['omit']
-        finite = [p for p in self.params if omit[p] != NEVER]
-        modval = next((omit[p] for p in finite if how.get(p) == 'module'), None)
-        genval = None if modval is not None else next((omit[p] for p in finite if how.get(p) == 'general'), None)
-        specs = []
+        for modname in sorted(set(self.mname.values())):
+            mine = [p for p in self.params if self.mname[p] == modname]
+            # how the suppression window is configured: on the parameter, the module property, or generalConfig
+            finite = [p for p in mine if omit[p] != NEVER]
+            modval = next((omit[p] for p in finite if how.get(p) == 'module'), None)
+            genval = None if modval is not None else next((omit[p] for p in finite if how.get(p) == 'general'), None)
+            specs = []
+            for p in mine:
+                om, h = omit[p], how.get(p, 'param')
+                if om == NEVER:
+                    uu = 'never'
+                elif h == 'module' and om == modval:
+                    uu = None                   # 'default': taken from the module property
+                elif h == 'general' and om == genval:
+                    uu = None                   # 'default': taken from generalConfig
+                elif h == 'always' and om == 0:
+                    uu = 'always'
+                else:
+                    uu = float(om * self.unit)
+                export = False if p in self.hidden else shape.get('exp', {}).get(p, True)
+                specs.append((p, self.dts[p], None if p in init['nodefault'] else (init['c'][p][0], init['c'][p][2]),
+                              uu, self.kind[p], export))
+            cls = _module_class(json.dumps(specs), specs)
+            cfg = {'description': ''}
+            if modval is not None:
+                cfg['omit_unchanged_within'] = modval * self.unit
+            saved = generalConfig._config.get('omit_unchanged_within')
+            generalConfig._config['omit_unchanged_within'] = 0 if genval is None else genval * self.unit
+            try:
+                from frappy.logging import RemoteLogHandler
+                log = _Log()
+                log.handlers = [RemoteLogHandler()]
+                mobj = cls(modname, log, cfg, self.srv)
+            finally:
+                generalConfig._config['omit_unchanged_within'] = saved
+            mobj.world = self
+            mobj.pollInfo = PollInfo(5, threading.Event())
+            self.srv.secnode.add_module(mobj, modname)
+            self.locks[modname] = mobj.updateLock = CtlLock(self, 'updateLock')
+            mobj.accessLock = CtlLock(self, 'accessLock')
+            self.mods[modname] = mobj
+        self.mobj = {p: self.mods[self.mname[p]] for p in self.params}
+        self.m = self.mods[MOD]
         for p in self.params:
-            om, h = omit[p], how.get(p, 'param')
-            if om == NEVER:
-                uu = 'never'
-            elif h == 'module' and om == modval:
-                uu = None                   # 'default': taken from the module property
-            elif h == 'general' and om == genval:
-                uu = None                   # 'default': taken from generalConfig
-            elif h == 'always' and om == 0:
-                uu = 'always'
-            else:
-                uu = float(om)
-            specs.append((p, self.dts[p], None if p in init['nodefault'] else (init['c'][p][0], init['c'][p][2]), uu))
-        key = json.dumps(specs)
-        cls = _module_class(key, specs)
-        self.srv = ServerStub()
-        cfg = {'description': ''}
-        if modval is not None:
-            cfg['omit_unchanged_within'] = modval
-        saved = generalConfig._config.get('omit_unchanged_within')
-        generalConfig._config['omit_unchanged_within'] = 0 if genval is None else genval
-        try:
-            self.m = cls(MOD, LoggerStub(), cfg, self.srv)
-        finally:
-            generalConfig._config['omit_unchanged_within'] = saved
-        self.m.world = self
-        self.m.pollInfo = PollInfo(5, threading.Event())
-        self.srv.secnode.add_module(self.m, MOD)
-        self.lock = self.m.updateLock = CtlLock(self, 'updateLock')
-        self.m.accessLock = CtlLock(self, 'accessLock')
-        for p in self.params:
-            got = self.m.parameters[p].omit_unchanged_within
-            if got != init['omit'][p]:
-                raise MachineryError(f'shape does not realise omit {init["omit"]} for {p}: {got} ({specs})')
+            got = self.mobj[p].parameters[p].omit_unchanged_within
+            want = NEVER if omit[p] == NEVER else omit[p] * self.unit
+            if got != want:
+                raise MachineryError(f'shape does not realise omit {omit} for {p}: {got} ({shape})')
         # alpha tables
         self.canon = {}
         self.avail = {p: sorted(self.cat[self.dts[p]][1]) for p in self.params}
@@ -405,9 +466,9 @@ class World:
         self.inverr = {}
         self.expname = {}
         for p in self.params:
-            pobj = self.m.parameters[p]
+            pobj = self.mobj[p].parameters[p]
             dt = pobj.datatype
-            self.expname[pobj.export] = p
+            self.expname[(self.mname[p], pobj.export)] = p
             if (p, self.dts[p]) not in _alpha:
                 fac, vals, _, invs = self.cat[self.dts[p]]
                 canon = [(v, typed(dt(reps[0]))) for v, reps in vals.items()]
@@ -431,26 +492,48 @@ class World:
         for e, mk in self.errs.items():
             self.errkey[self._errkey(secop_error(mk()))] = e
         for p in init['nodefault']:
-            self.errkey[self._errkey(self.m.parameters[p].readerror)] = 'init'
-        self.conns = {c: RConn(c, self) for c in sorted(init['sub'])}
+            self.errkey[self._errkey(self.mobj[p].parameters[p].readerror)] = 'init'
+        self.conns = {c: RConn(c, self) for c in sorted(init['sub']) if c != 'cb'}
         self.reqconn = RConn('rq', self)
+        # internal callbacks: a failing one first (it must not disturb anything), then the recording one
+        for p, what in sorted(shape.get('cbs', {}).items()):
+            if what == 'raise' and p in self.params:
+                self.mobj[p].addCallback(p, _raising_callback)
+        if 'cb' in init['sub']:
+            cb = self.conns['cb'] = CbConn(self)
+            for p in init['sub']['cb']:
+                self.mobj[p].addCallback(p, cb.callback, p)
         self.folded = {c: {} for c in self.conns}     # client-side replay of the stream
         self.taken = {c: 0 for c in self.conns}
         for c in sorted(init['sub']):
             for sc in sorted(init['sub'][c]):
-                self.activate(c, sc)
+                if c == 'cb':        # a callback gets no snapshot: it starts from what the cache holds
+                    from frappy.protocol.dispatcher import make_update
+                    self.folded[c][sc] = self.decode(make_update(self.mname[sc], self.mobj[sc].parameters[sc]))[1]
+                else:
+                    self.activate(c, sc)
         self.collect()
+
+    # -- clock mapping: abstract tick t <-> clock value
+    def t2c(self, t):
+        return self.epoch + t * self.unit
+
+    def c2t(self, ts):
+        if not ts:
+            return 0
+        t = (ts - self.epoch) / self.unit
+        return int(t) if t == int(t) else repr(ts)
+
+    def tick(self, n):
+        Clock.now = self.t2c(self.c2t(Clock.now) + n)
+
+    def now(self):
+        return self.c2t(Clock.now)
 
     # -- alpha
     @staticmethod
     def _errkey(e):
         return (getattr(e, 'name', type(e).__name__), str(e))
-
-    @staticmethod
-    def _ts(t):
-        if not t:
-            return 0
-        return int(t) if float(t) == int(t) else repr(t)
 
     def val_id(self, p, value):
         tv = typed(value)
@@ -467,33 +550,56 @@ class World:
         return 'raw:' + s[:40]
 
     def err_id(self, p, name, text):
+        """error report -> error id; a report carrying the context of a nested read ('in m.read_x: text')
+        is the nested rendering n<k> of error e<k>"""
         k = (name, text)
-        return self.errkey.get(k) or self.inverr.get((p, k)) or f'other:{name}:{text}'[:80]
+        e = self.errkey.get(k) or self.inverr.get((p, k))
+        if e:
+            return e
+        if self.drifted:
+            # a recorded defect has already changed stored error reports in this world (and was reported):
+            # keep comparing everything else by reading through any number of context prefixes
+            while _NESTED.match(text):
+                text = _NESTED.match(text).group(3)
+            e = self.errkey.get((name, text)) or self.inverr.get((p, (name, text)))
+            if e:
+                return NESTED_ID.get(e, e) if nested_expected(self, p) else e
+        mt = _NESTED.match(text)
+        if mt and mt.group(1) in self.mods and mt.group(2) in self.params and mt.group(2) != p:
+            e = self.errkey.get((name, mt.group(3)))
+            if e in NESTED_ID:
+                return NESTED_ID[e]
+        return f'other:{name}:{text}'[:80]
 
     def decode(self, msg):
         """update / error_update message -> (parameter, view)"""
         action, spec, data = msg
         modname, _, ename = spec.partition(':')
-        p = self.expname.get(ename, ename)
+        p = self.expname.get((modname, ename), f'{modname}:{ename}')
+        if p not in self.canon:
+            return p, ['?', str(action), 0]
         if action == 'update':
-            return p, ['v', self.wire_id(p, data[0]), self._ts(data[1].get('t'))]
+            return p, ['v', self.wire_id(p, data[0]), self.c2t(data[1].get('t'))]
         if action == 'error_update':
-            return p, ['e', self.err_id(p, data[0], data[1]), self._ts(data[2].get('t'))]
+            return p, ['e', self.err_id(p, data[0], data[1]), self.c2t(data[2].get('t'))]
         return p, ['?', str(action), 0]
 
     def cache_view(self):
         """c: the cache by its fields (value by typed equality, error by class+arguments);
-        w: the cache as the dispatcher would put it on the wire now (make_update)"""
+        w: the cache as the dispatcher would put it on the wire now (make_update); not for unexported ones"""
         c, w = {}, {}
         from frappy.protocol.dispatcher import make_update
         for p in self.params:
-            pobj = self.m.parameters[p]
+            pobj = self.mobj[p].parameters[p]
             if pobj.readerror:
-                c[p] = ['-', self._int_err(p, pobj.readerror), self._ts(pobj.timestamp)]
+                c[p] = ['-', self._int_err(p, pobj.readerror), self.c2t(pobj.timestamp)]
             else:
-                c[p] = [self.val_id(p, pobj.value), 'ok', self._ts(pobj.timestamp)]
+                c[p] = [self.val_id(p, pobj.value), 'ok', self.c2t(pobj.timestamp)]
+            if p in self.hidden:
+                w[p] = ['-', '-', 0]
+                continue
             try:
-                w[p] = self.decode(make_update(MOD, pobj))[1]
+                w[p] = self.decode(make_update(self.mname[p], pobj))[1]
             except Exception as e:
                 w[p] = ['?', 'make_update raised ' + repr(e)[:60], 0]
         return c, w
@@ -520,8 +626,8 @@ class World:
             msgs = conn.msgs[self.taken[c]:]
             self.taken[c] = len(conn.msgs)
             for msg, th, held in msgs:
-                p, view = self.decode(msg)
                 if msg[0] in ('update', 'error_update'):
+                    p, view = self.decode(msg)
                     per.setdefault(p, []).append(view)
                     self.folded[c][p] = view
                     if held is False:
@@ -533,28 +639,36 @@ class World:
         c, w = self.cache_view()
         out, unlocked = self.collect()
         seen = {cn: {p: self.folded[cn].get(p, ['-', '-', 0]) for p in self.params} for cn in self.conns}
-        return {'op': op, 'now': int(Clock.now), 'c': c, 'w': w, 'o': out, 's': seen, 'unl': unlocked}
+        return {'op': op, 'now': self.now(), 'c': c, 'w': w, 'o': out, 's': seen, 'unl': unlocked}
 
     # -- critical sections (linearisation points)
     def cs_begin(self):
-        me = threading.get_ident()
-        self.cs_now = int(Clock.now)
-        self.cs_count = getattr(self, 'cs_count', 0) + 1
+        self.cs_now[threading.get_ident()] = self.now()
+        self.cs_count += 1
 
     def cs_end(self):
         me = threading.get_ident()
         op = self.cur.get(me)
         if op is not None:          # controlled-thread mode: the event is taken inside the lock
             ev = self.observe(op)
-            ev['now'] = self.cs_now
+            ev['now'] = self.cs_now[me]
             ev['lk'] = True
             ev['th'] = self.tname.get(me, '?')
             self.events.append(ev)
             self.cur[me] = None
 
     # -- gamma: execute one abstract operation on the real objects
+    def spec_of(self, sc):
+        if sc == 'all':
+            return None
+        if sc == 'mod':
+            return MOD
+        if sc == 'mod2':
+            return 'n'
+        return f'{self.mname[sc]}:{self.mobj[sc].parameters[sc].export}'
+
     def activate(self, c, sc):
-        spec = None if sc == 'all' else MOD if sc == 'mod' else f'{MOD}:{self.m.parameters[sc].export}'
+        spec = self.spec_of(sc)
         self.activating = True
         try:
             rep = self.srv.dispatcher.handle_request(self.conns[c], ('activate', spec, None))
@@ -571,65 +685,93 @@ class World:
             reps += wonly.get(v, [])
         k = force if force is not None else rnd.randrange(len(reps))
         k = min(k, len(reps) - 1)
-        dt = self.m.parameters[p].datatype
+        dt = self.mobj[p].parameters[p].datatype
         r = reps[k]
         if force == 0 or (force is None and rnd.random() < 0.3):
             r = dt(reps[0])            # the validated object itself (EnumMember, ImmutableDict ...)
         kind = 'canon' if typed(r) == typed(dt(reps[0])) else 'raw'
         return r, kind
 
+    def new_error(self, p, x, ch, pick):
+        eo = pick('errobj', ['fresh', 'reused'], [30, 1])
+        e = self.last_err.get((p, x)) if eo == 'reused' else None
+        if e is None:
+            e = self.errs[x]()
+            ch['errobj'] = 'fresh'
+        self.last_err[(p, x)] = e
+        return e
+
     def execute(self, op, rnd, forced=None):
         """perform op; returns dict of the concrete choices made (goes into signatures / replays)"""
-        m = self.m
         me = threading.get_ident()
         a, p, x, y = op['a'], op['p'], op['x'], op['y']
+        m = self.mobj.get(p)
+        disp = self.srv.dispatcher
         ch = dict(forced or {})
         exc = None
         expect_exc = False
         pick = lambda key, options, weights=None: ch.setdefault(
             key, rnd.choices(options, weights)[0] if weights else rnd.choice(options))
+        rspec = lambda q: f'{self.mname[q]}:{self.mobj[q].parameters[q].export}'
         if a == 'Tick':
-            Clock.now += op['n']
+            self.tick(op['n'])
         elif a == 'Activate':
             self.activate(p, x)
-        elif a in ('ReadOk', 'ReadRaise', 'ReadInvalid'):
-            via = pick('via', ['direct', 'poll', 'request'], [6, 2, 2] if a == 'ReadOk' else [16, 1, 4])
+        elif a == 'Deactivate':
+            rep = disp.handle_request(self.conns[p], ('deactivate', self.spec_of(x), None))
+            if rep[0] != 'inactive':
+                raise MachineryError(f'deactivate {x} -> {rep}')
+        elif a == 'Drop':
+            how = pick('how', ['ident', 'disconnect'])
+            if how == 'ident':
+                disp.handle_request(self.conns[p], ('*IDN?', None, None))
+            else:
+                disp.remove_connection(self.conns[p])
+                disp.add_connection(self.conns[p])      # (the same fake connection object comes back later)
+        elif a in ('ReadOk', 'ReadRaise', 'ReadInvalid', 'ReadNested'):
+            via = pick('via', ['direct', 'poll', 'request'], [6, 2, 2] if a == 'ReadOk' else [16, 4, 4])
+            target = y if a == 'ReadNested' else p
+            if via == 'request' and target in self.hidden:
+                via = ch['via'] = 'direct'      # an unexported parameter cannot be requested
             if a == 'ReadOk':
                 r, ch['rep'] = self.raw(p, x, rnd, 'r', ch.get('repk'))
                 self.script[(me, 'r', p)] = ('ret', r)
             elif a == 'ReadInvalid':
                 self.script[(me, 'r', p)] = ('ret', self.cat[self.dts[p]][3][x])
                 expect_exc = True
-            else:
-                eo = pick('errobj', ['fresh', 'reused'], [30, 1])
-                e = self.last_err.get((p, x)) if eo == 'reused' else None
-                if e is None:
-                    e = self.errs[x]()
-                    ch['errobj'] = 'fresh'
-                self.last_err[(p, x)] = e
-                self.script[(me, 'r', p)] = ('raise', e)
+            elif a == 'ReadRaise':
+                self.script[(me, 'r', p)] = ('raise', self.new_error(p, x, ch, pick))
                 expect_exc = True
+            else:       # read_<y> reads <p> first
+                if x in self.errs:
+                    self.script[(me, 'r', p)] = ('raise', self.new_error(p, x, ch, pick))
+                    self.script[(me, 'r', y)] = ('nested', (p, None))
+                    self.nested_outer.add(y)
+                    expect_exc = True
+                    ch['errkind'] = 'secop' if x != 'e3' else 'other'
+                else:
+                    self.script[(me, 'r', p)] = ('ret', self.raw(p, x, rnd, 'r')[0])
+                    self.script[(me, 'r', y)] = ('nested', (p, self.raw(y, x, rnd, 'r')[0]))
+            tm = self.mobj[target]
             try:
                 if via == 'direct':
-                    getattr(m, 'read_' + p)()
+                    getattr(tm, 'read_' + target)()
                 elif via == 'poll':
-                    m.callPollFunc(getattr(m, 'read_' + p))
+                    tm.callPollFunc(getattr(tm, 'read_' + target))
                     expect_exc = False
                 else:
-                    self.srv.dispatcher.handle_request(self.reqconn, ('read', f'{MOD}:{m.parameters[p].export}', None))
+                    disp.handle_request(self.reqconn, ('read', rspec(target), None))
             except Exception as e:
                 exc = e
         elif a == 'Write':
             dt = m.parameters[p].datatype
             via = pick('via', ['direct', 'request'], [3, 1])
-            if self.dts[p] in ('array', 'nested'):
+            if self.dts[p] in ('array', 'nested') or p in self.hidden:
                 via = ch['via'] = 'direct'   # ArrayOf.validate(previous=..) truncates (C01 finding): stay independent
             if x == y:
                 ret = pick('ret', ['none', 'canon', 'value'], [3, 1, 1])
             else:
                 ret = ch.setdefault('ret', 'value')
-            if ret == 'none' and 'repk' not in ch and rnd.random() < 0.85:
-                ch['repk'] = 0        # (a raw argument + driver returning None is the recorded defect: keep it rare)
             r, ch['rep'] = self.raw(p, x, rnd, 'w', ch.get('repk'))
             if ret == 'none':
                 self.script[(me, 'w', p)] = ('ret', None)
@@ -643,7 +785,7 @@ class World:
                 else:
                     ch['rep'] = 'canon'    # the dispatcher imports and validates before calling write_*
                     wire = dt.export_value(dt(self.cat[self.dts[p]][1][x][0]))
-                    self.srv.dispatcher.handle_request(self.reqconn, ('change', f'{MOD}:{m.parameters[p].export}', wire))
+                    disp.handle_request(self.reqconn, ('change', rspec(p), wire))
             except Exception as e:
                 exc = e
         elif a == 'Assign':
@@ -666,6 +808,51 @@ class World:
                 m.announceUpdate(p, None, self.errs[x]())
             except Exception as e:
                 exc = e
+        elif a == 'AnnounceAt':
+            try:
+                if x in self.errs:
+                    m.announceUpdate(p, None, self.errs[x](), self.t2c(op['n']))
+                else:
+                    r, ch['rep'] = self.raw(p, x, rnd, 'r', ch.get('repk'))
+                    m.announceUpdate(p, r, timestamp=self.t2c(op['n']))
+            except Exception as e:
+                exc = e
+        elif a == 'Untouched':
+            from frappy.modulebase import Done
+            options = {'rw': ['ReadDone', 'WriteDone', 'WriteRaise', 'WriteInvalid', 'ChangeRaise'],
+                       'noread': ['ReadCached', 'WriteRaise', 'WriteInvalid'],
+                       'const': ['ReadConst', 'ReadCached', 'ChangeConst']}[self.kind[p]]
+            if p in self.hidden:
+                options = [o for o in options if o not in ('ChangeRaise', 'ReadConst', 'ChangeConst')]
+            var = pick('var', options)
+            dt = m.parameters[p].datatype
+            anyval = self.cat[self.dts[p]][1][self.avail[p][rnd.randrange(len(self.avail[p]))]][0]
+            try:
+                if var == 'ReadDone':
+                    self.script[(me, 'r', p)] = ('ret', Done)
+                    getattr(m, 'read_' + p)()
+                elif var == 'ReadCached':
+                    getattr(m, 'read_' + p)()
+                elif var == 'ReadConst':
+                    disp.handle_request(self.reqconn, ('read', rspec(p), None))
+                elif var == 'WriteDone':
+                    self.script[(me, 'w', p)] = ('ret', Done)
+                    getattr(m, 'write_' + p)(anyval)
+                elif var in ('WriteRaise', 'ChangeRaise'):
+                    self.script[(me, 'w', p)] = ('raise', self.errs[rnd.choice(sorted(self.errs))]())
+                    expect_exc = True
+                    if var == 'WriteRaise':
+                        getattr(m, 'write_' + p)(anyval)
+                    else:
+                        disp.handle_request(self.reqconn, ('change', rspec(p), dt.export_value(dt(anyval))))
+                elif var == 'WriteInvalid':
+                    expect_exc = True
+                    getattr(m, 'write_' + p)(self.cat[self.dts[p]][3][rnd.choice(['i1', 'i2'])])
+                elif var == 'ChangeConst':
+                    expect_exc = True
+                    disp.handle_request(self.reqconn, ('change', rspec(p), dt.export_value(dt(anyval))))
+            except Exception as e:
+                exc = e
         else:
             raise MachineryError(f'unknown operation {op}')
         if (exc is not None) != expect_exc and a != 'AssignInvalid':
@@ -673,21 +860,27 @@ class World:
         return ch
 
 
+def nested_expected(w, p):
+    return p in w.nested_outer
+
+
+_NESTED = __import__('re').compile(r'^in (\w+)\.read_(\w+): (.*)$', __import__('re').S)
+NESTED_ID = {'e1': 'n1', 'e2': 'n2', 'e4': 'n4'}
+
+
 # ------------------------------------------------------------------ spec -> code replay
 
-def _view(cv):
-    return ['e', cv[1], cv[2]] if cv[1] != 'ok' else ['v', cv[0], cv[2]]
-
-
-def _diff(exp, got, conns, params):
+def _diff(exp, got, conns, params, hidden=()):
     d = []
     if any(exp['c'][p] != got['c'][p] for p in params):
         d.append('cache')
-    if any(_view(exp['c'][p]) != got['w'][p] for p in params):
+    if any(exp['w'][p] != got['w'][p] for p in params if p not in hidden):
         d.append('wire')
     if any(exp['o'][c][p] != got['o'][c][p] for c in conns for p in params):
         d.append('out')
     return d
+
+
 
 
 def _shape_for(idx, k, params, seed):
@@ -695,7 +888,13 @@ def _shape_for(idx, k, params, seed):
     off = (idx * 5 + k * 7 + seed) % len(DTNAMES)
     dts = {p: DTNAMES[(off + 3 * i) % len(DTNAMES)] for i, p in enumerate(params)}
     how = {p: rnd.choice(['param', 'param', 'module', 'general', 'always']) for p in params}
-    return {'dts': dts, 'how': how}
+    return {'dts': dts, 'how': how,
+            'exp': {p: rnd.choice([True, True, 'x_' + p, '_' + p + 'x']) for p in params},
+            'unit': rnd.choice([1.0, 1.0, 0.5, 0.125, 60.0]), 'epoch': rnd.choice([EPOCH, EPOCH + 86400 * 365.25 * 20]),
+            'cbs': {p: 'raise' for p in params if rnd.random() < 0.3}}
+
+
+NOLOCK_OPS = ('Tick', 'Activate', 'Deactivate', 'Drop', 'Untouched')     # need not pass through updateLock
 
 
 def _replay_one(beh, shape, seedstr, forced=None, verbose=False):
@@ -706,36 +905,53 @@ def _replay_one(beh, shape, seedstr, forced=None, verbose=False):
     conns = sorted(w.conns)
     rnd = random.Random(seedstr)
     got = w.observe(init['op'])
+    devs = []
     if got['c'] != init['c']:
-        return {'step': 0, 'op': init['op'], 'choices': {}, 'diff': ['init'], 'expected': {'c': init['c']}, 'observed': got}
-    sub = {c: set(init['sub'][c]) for c in conns}
+        return [{'step': 0, 'op': init['op'], 'choices': {}, 'diff': ['init'], 'expected': {'c': init['c']}, 'observed': got}]
     for i, st in enumerate(beh[1:], 1):
         op = st['op']
-        n0 = getattr(w, 'cs_count', 0)
+        n0 = w.cs_count
         ch = w.execute(op, rnd, (forced or {}).get(str(i)))
         got = w.observe(op)
-        d = _diff(st, got, conns, params)
-        if op['a'] == 'Activate':
-            sub[op['p']].add(op['x'])
-        elif op['a'] != 'Tick':
-            if getattr(w, 'cs_count', 0) == n0:
-                d.append('lock')          # the operation never entered updateLock
+        d = _diff(st, got, conns, params, w.hidden)
+        if op['a'] not in NOLOCK_OPS and w.cs_count == n0:
+            d.append('lock')          # the operation never entered updateLock
         if got['unl']:
             d.append('lock')
-        # the client-side replay of everything received must equal the cache for subscribed parameters
+        # the client-side replay of everything received must equal what the specification says the connection
+        # holds (= the cache) for every parameter it listens to ('-' = does not listen)
         for c in conns:
             for p in params:
-                if ({'all', 'mod', p} & sub[c]) and got['s'][c][p] != _view(st['c'][p]):
+                if st['s'][c][p][0] != '-' and got['s'][c][p] != st['s'][c][p]:
                     d.append('seen')
         if 'raised' in ch:
             d.append('raised')
         if verbose:
             print(i, op, ch, '->', {k: got[k] for k in ('c', 'o')}, 'DIFF' if d else 'ok', d)
         if d:
-            return {'step': i, 'op': op, 'choices': ch, 'diff': sorted(set(d)),
-                    'expected': {'c': st['c'], 'o': st['o']},
-                    'observed': {k: got[k] for k in ('c', 'w', 'o', 's', 'unl')}}
-    return None
+            bad = {'step': i, 'op': op, 'choices': ch, 'diff': sorted(set(d)),
+                   'expected': {k: st[k] for k in ('c', 'w', 'o', 's')},
+                   'observed': {k: got[k] for k in ('c', 'w', 'o', 's', 'unl')}}
+            if d == ['wire'] and not w.drifted and (ch.get('errkind') == 'secop' or ch.get('errobj') == 'reused') \
+                    and _only_self_prefix(w, st, got):
+                # the stored error report of the inner parameter changed after it was sent (reported once per
+                # behaviour); read through it from here on so that the rest of the behaviour is still compared
+                w.drifted = True
+                devs.append(bad)
+                continue
+            return devs + [bad]
+    return devs or None
+
+
+def _only_self_prefix(w, st, got):
+    """the wire views differ only by '<own module>.read_<own parameter>' context in an error report"""
+    for p in w.params:
+        if p in w.hidden or st['w'][p] == got['w'][p]:
+            continue
+        g = got['w'][p][1]
+        if not (isinstance(g, str) and g.startswith('other:') and f':in {w.mname[p]}.read_' in g):
+            return False
+    return True
 
 
 def _replay_job(job):
@@ -749,7 +965,7 @@ def _replay_job(job):
 def _signature(bad):
     ch = bad['choices']
     sig = {'module': 'ParamCache', 'action': bad['op']['a'], 'diff': '+'.join(bad['diff'])}
-    for k in ('via', 'ret', 'rep', 'errobj'):
+    for k in ('via', 'ret', 'rep', 'errobj', 'var', 'how', 'errkind'):
         if k in ch:
             sig[k] = ch[k]
     return sig
@@ -764,44 +980,75 @@ TR_INVS = ['i1', 'i2']
 TR_CONNS = ['c1', 'c2', 'c3']
 
 
-def _random_init(rnd):
+def _random_init(rnd, threads=False):
+    """4 parameters (p1-p3 in module m, p4 in module n), 3 connections + the callback receiver"""
     omit = {p: rnd.choice([0, 0, 1, 2, 3, 5, NEVER]) for p in TR_PARAMS}
-    nodefault = sorted(p for p in TR_PARAMS if rnd.random() < 0.5)
-    scopes = [[], ['all'], ['all'], ['mod'], ['p1'], ['p2', 'p3']]
-    sub = {cn: rnd.choice(scopes) for cn in TR_CONNS}
+    kind = {p: rnd.choice(['rw', 'rw', 'rw', 'rw', 'noread', 'const']) for p in TR_PARAMS}
+    kind['p1'] = kind['p2'] = 'rw'
+    hidden = [p for p in ('p3', 'p4') if rnd.random() < 0.2]
+    nodefault = sorted(p for p in TR_PARAMS if rnd.random() < 0.5 and kind[p] != 'const')
+    scopes = [[], ['all'], ['all'], ['mod'], ['mod2'], ['p1'], ['p2', 'p3'], ['mod', 'p4'], ['all', 'p1']]
+    sub = {cn: [sc for sc in rnd.choice(scopes) if sc not in hidden] for cn in TR_CONNS}
     sub['c1'] = ['all']
+    sub['cb'] = sorted(p for p in TR_PARAMS if p not in hidden and rnd.random() < 0.4)
     dts = {p: rnd.choice(DTNAMES) for p in TR_PARAMS}
-    c = {p: ['-', 'init', 0] if p in nodefault else [rnd.choice(['a', 'b']), 'ok', rnd.choice([0, 1])] for p in TR_PARAMS}
+    c = {p: ['-', 'init', 0] if p in nodefault else
+         [rnd.choice(['a', 'b']), 'ok', 1 if kind[p] == 'const' else rnd.choice([0, 1])] for p in TR_PARAMS}
     how = {p: rnd.choice(['param', 'module', 'general', 'always']) for p in TR_PARAMS}
     init = {'op': {'a': 'Init', 'p': '-', 'x': '-', 'y': '-', 'n': 0}, 'omit': omit, 'nodefault': nodefault,
-            'c': c, 'sub': sub, 'now': 1}
-    return init, {'dts': dts, 'how': how}
+            'hidden': hidden, 'mod2': ['p4'], 'c': c, 'sub': sub, 'now': 1}
+    shape = {'dts': dts, 'how': how, 'kind': kind,
+             'exp': {p: rnd.choice([True, True, 'x_' + p, '_' + p + 'x']) for p in TR_PARAMS},
+             'unit': rnd.choice([1.0, 1.0, 0.5, 0.125, 60.0]), 'epoch': rnd.choice([EPOCH, EPOCH + 86400 * 365.25 * 20]),
+             'cbs': {p: 'raise' for p in TR_PARAMS if rnd.random() < 0.3}}
+    return init, shape
 
 
-def _random_op(rnd, sticky, avail=None):
+def _random_op(rnd, sticky, w, now, threads=False):
     """biased towards repeating the previous parameter / value so that suppression paths are hit"""
     p = sticky.get('p') if rnd.random() < 0.6 and sticky.get('p') else rnd.choice(TR_PARAMS)
-    vals = avail[p] if avail else TR_VALS
+    vals = w.avail[p]
     v = sticky.get('v') if rnd.random() < 0.5 and sticky.get('v') in vals else rnd.choice(vals)
     e = sticky.get('e') if rnd.random() < 0.6 and sticky.get('e') else rnd.choice(TR_ERRS)
     sticky.update(p=p, v=v, e=e)
     r = rnd.random()
-    mk = lambda a, x, y='-': {'a': a, 'p': p, 'x': x, 'y': y, 'n': 0}
-    if r < 0.30:
-        return mk('ReadOk', v)
-    if r < 0.45:
-        return mk('ReadRaise', e)
-    if r < 0.52:
-        return mk('ReadInvalid', rnd.choice(TR_INVS))
-    if r < 0.67:
+    mk = lambda a, x, y='-', n=0: {'a': a, 'p': p, 'x': x, 'y': y, 'n': n}
+    kind = w.kind[p]
+    if not threads:
+        if r < 0.05:
+            return {'a': 'Activate', 'p': rnd.choice(TR_CONNS), 'y': '-', 'n': 0,
+                    'x': rnd.choice([sc for sc in ['all', 'mod', 'mod2'] + TR_PARAMS if sc not in w.hidden])}
+        if r < 0.08:
+            return {'a': 'Deactivate', 'p': rnd.choice(TR_CONNS), 'y': '-', 'n': 0,
+                    'x': rnd.choice([sc for sc in ['all', 'all', 'mod', 'mod2'] + TR_PARAMS if sc not in w.hidden])}
+        if r < 0.09:
+            return {'a': 'Drop', 'p': rnd.choice(TR_CONNS[1:]), 'x': '-', 'y': '-', 'n': 0}
+    if kind == 'const' or r < 0.17:
+        return mk('Untouched', '-')
+    if r < 0.25:
+        return mk('AnnounceAt', v if rnd.random() < 0.7 else e, n=max(1, now + rnd.choice([-3, -1, -1, 0, 1, 2])))
+    if r < 0.40:
         return mk('Write', v, v if rnd.random() < 0.7 else rnd.choice(vals))
-    if r < 0.82:
+    if r < 0.55:
         return mk('Assign', v)
-    if r < 0.90:
+    if r < 0.62:
         return mk('AnnounceErr', e)
-    if r < 0.94:
+    if r < 0.65:
         return mk('AssignInvalid', rnd.choice(TR_INVS))
-    return {'a': 'Activate', 'p': rnd.choice(TR_CONNS), 'x': rnd.choice(['all', 'mod'] + TR_PARAMS), 'y': '-', 'n': 0}
+    if kind == 'noread':
+        return mk('Untouched', '-')
+    if r < 0.70 and not threads:
+        # a nested read: q's driver reads p first (same module, both with a driver method)
+        qs = [q for q in TR_PARAMS if q != p and w.mname[q] == w.mname[p] and w.kind[q] == 'rw']
+        if qs:
+            q = rnd.choice(qs)
+            x = rnd.choice([u for u in vals if u in w.avail[q]] or ['a']) if rnd.random() < 0.8 else e
+            return mk('ReadNested', x, q)
+    if r < 0.85:
+        return mk('ReadOk', v)
+    if r < 0.95:
+        return mk('ReadRaise', e)
+    return mk('ReadInvalid', rnd.choice(TR_INVS))
 
 
 def _random_trace(job):
@@ -815,26 +1062,18 @@ def _random_trace(job):
     sticky = {}
     for _ in range(n):
         if rnd.random() < 0.35:
-            Clock.now += rnd.choice([1, 1, 1, 2, 3, 7])
-        op = _random_op(rnd, sticky, w.avail)
-        n0 = getattr(w, 'cs_count', 0)
-        # the two recorded defects end a trace (the cache is off the specification afterwards): keep them rare
-        forced = {}
-        if op['a'] in ('ReadRaise', 'ReadInvalid') and rnd.random() < 0.97:
-            forced = {'via': rnd.choice(['direct', 'request']), 'errobj': 'fresh'}
-        if op['a'] == 'Write' and op['x'] == op['y'] and rnd.random() < 0.97:
-            forced = {'ret': rnd.choice(['canon', 'value'])} if rnd.random() < 0.7 else {'ret': 'none', 'repk': 0, 'via': 'request'}
-        ch = w.execute(op, rnd, forced)
+            w.tick(rnd.choice([1, 1, 1, 2, 3, 7]))
+        op = _random_op(rnd, sticky, w, w.now())
+        n0 = w.cs_count
+        ch = w.execute(op, rnd, {})
         ev = w.observe(op)
-        ev['lk'] = op['a'] == 'Activate' or getattr(w, 'cs_count', 0) > n0
+        ev['lk'] = op['a'] in NOLOCK_OPS or w.cs_count > n0
         ev['ch'] = ch
         tr.append(ev)
         if 'raised' in ch:
             ev['lk'] = False
-        deviates = (op['a'] == 'Write' and ch.get('ret') == 'none' and ch.get('rep') == 'raw') or \
-                   (op['a'] in ('ReadRaise', 'ReadInvalid') and (ch.get('via') == 'poll' or ch.get('errobj') == 'reused'))
-        if deviates:
-            break
+        if op['a'] == 'ReadNested' and ch.get('errkind') == 'secop':
+            break      # (recorded defect: the inner parameter's error report changes afterwards; the trace ends here)
     return {'trace': tr, 'shape': shape, 'job': list(job)}
 
 
@@ -843,24 +1082,27 @@ def _random_trace(job):
 def _threaded_trace(job):
     seed, nthreads, nops = job
     rnd = random.Random(f'th:{seed}')
-    init, shape = _random_init(rnd)
+    init, shape = _random_init(rnd, threads=True)
     for p in TR_PARAMS[2:]:
         init['omit'][p] = 0
+    # one module only: the events are ordered by the critical sections of ONE update lock (Trace_ParamCache_thr.cfg)
+    init['mod2'] = []
+    init['sub'] = {c: ['mod' if sc == 'mod2' else sc for sc in scs] for c, scs in init['sub'].items()}
     w = World(init, shape)
     first = dict(init)
     first['c'] = w.observe(init['op'])['c']
     ctl = w.ctl
     w.tname = {}
     # scripts: operations on few parameters so that the threads really compete
-    hot = rnd.sample(TR_PARAMS, 2)
+    hot = rnd.sample([p for p in TR_PARAMS if w.kind[p] == 'rw'], 2)
     scripts = []
     for t in range(nthreads):
         ops = []
         for _ in range(nops):
             sticky = {'p': rnd.choice(hot)}
             while True:
-                op = _random_op(rnd, sticky, w.avail)
-                if op['a'] not in ('Activate', 'AssignInvalid') and op['p'] in hot:
+                op = _random_op(rnd, sticky, w, 1, threads=True)
+                if op['a'] not in ('AssignInvalid', 'AnnounceAt', 'Untouched') and op['p'] in hot:
                     break
             ops.append(op)
         scripts.append(ops)
@@ -937,7 +1179,7 @@ def _threaded_trace(job):
         mv = rnd.choice(moves)
         sched.append(list(mv))
         if mv[0] == 'tick':
-            Clock.now += mv[1]
+            w.tick(mv[1])
             continue
         ident = threads[mv[1]].ident
         with ctl.cv:
@@ -954,7 +1196,7 @@ def _threaded_trace(job):
         th.join(5)
     if errors:
         # an operation raised/did not raise against expectation: make the trace fail at a synthetic event
-        w.events.append({'op': errors[0][0], 'now': int(Clock.now), 'c': {}, 'w': {}, 'o': {}, 's': {}, 'unl': 0,
+        w.events.append({'op': errors[0][0], 'now': w.now(), 'c': {}, 'w': {}, 'o': {}, 's': {}, 'unl': 0,
                          'lk': False, 'err': str(errors[0][1])})
     return {'trace': [first] + w.events, 'shape': shape, 'scripts': scripts, 'plans': plans, 'sched': sched,
             'blocked': dict(ctl.blocked), 'job': list(job)}
@@ -966,7 +1208,7 @@ def _trace_sig(ev, clause, mode):
     if ev is None:
         return {'module': 'ParamCache', 'mode': mode, 'diff': clause}
     sig = {'module': 'ParamCache', 'mode': mode, 'action': ev['op']['a'], 'diff': clause}
-    for k in ('via', 'ret', 'rep', 'errobj'):
+    for k in ('via', 'ret', 'rep', 'errobj', 'var', 'how', 'errkind'):
         if k in ev.get('ch', {}):
             sig[k] = ev['ch'][k]
     return sig
@@ -1008,7 +1250,7 @@ def _run_agent(chk):
                           heap='3g' if quick else '8g'),
                 ex.submit(run_tlc, 'ParamCacheConc', 'MC_ParamCacheConc_nolock.cfg', timeout=600, workers=2, heap='2g')]
         # every operation of the full alphabet (the two configurations above explore one representative per funnel call)
-        f_mc.append(ex.submit(model_check, 'ParamCache', 'MC_ParamCache_full.cfg', timeout=600, workers=2, heap='2g'))
+        f_mc.append(ex.submit(model_check, 'ParamCache', 'MC_ParamCache_full.cfg', timeout=600, workers=ncpu, heap='2g'))
         if not quick:
             f_mc.append(ex.submit(model_check, 'ParamCacheConc', 'MC_ParamCacheConc_thorough3.cfg', timeout=1100,
                                   workers=ncpu, heap='8g'))
@@ -1023,7 +1265,7 @@ def _run_agent(chk):
         thr = pool_map(_threaded_trace, [(chk.seed * 1000003 + i, 2 + i % 2, 3 if quick else 4) for i in range(n)])
         phase['drivers'] = round(_time.time() - t0, 1)
         probes = _corrupted(seq)
-        f_tr = [ex.submit(_validate, seq + [p for p, _ in probes]), ex.submit(_validate, thr)]
+        f_tr = [ex.submit(_validate, seq + [p for p, _ in probes]), ex.submit(_validate, thr, 'Trace_ParamCache_thr.cfg')]
 
         # 2 spec -> code
         nshape = 1
@@ -1041,10 +1283,10 @@ def _run_agent(chk):
                 nontriv = any(s['op']['a'] not in ('Tick', 'Activate') and
                               (all(not v for cv in s['o'].values() for v in cv.values()) or s['c'][s['op']['p']][1] != 'ok')
                               for s in beh[1:])
-                for k, bad in enumerate(bads):
+                for k, bl in enumerate(bads):
                     chk.impl_traces += 1
                     chk.case(json.dumps([ops, beh[0]['omit'], shapes[k]], sort_keys=True), nontriv)
-                    if bad:
+                    for bad in bl or ():
                         chk.violation(_signature(bad), {'behaviour': beh, 'shape': shapes[k],
                                                         'seedstr': f'r:{chk.seed}:{i}:{k}', **bad})
             if behs:
@@ -1103,8 +1345,8 @@ def _corrupted(recs):
     return res
 
 
-def _validate(recs):
-    return validate_traces('Trace_ParamCache', [_strip(r['trace']) for r in recs], 'Trace_ParamCache.cfg', timeout=1100)
+def _validate(recs, cfg='Trace_ParamCache.cfg'):
+    return validate_traces('Trace_ParamCache', [_strip(r['trace']) for r in recs], cfg, timeout=1100)
 
 
 def _judge(chk, recs, mode, result):
@@ -1134,7 +1376,7 @@ def replay(chk, rep):
     if 'behaviour' in d:
         bad = _replay_one(d['behaviour'], d['shape'], d['seedstr'], verbose=True)
         print('shape:', d['shape'])
-        print('first mismatch now:', json.dumps(bad, default=str)[:1500])
+        print('mismatches now:', json.dumps(bad, default=str)[:2500])
         print('recorded mismatch :', json.dumps({k: d[k] for k in ('step', 'op', 'choices', 'diff', 'expected', 'observed')},
                                                default=str)[:1500])
     else:
